@@ -6,6 +6,8 @@
 set -u
 . "$(dirname "$0")/env.sh"
 WT="$1"; PATCH="$2"; DEMO="$3"; shift 3
+# the worktree is its own module: plain offline flags there (env.sh may have redirected GOFLAGS to a -modfile of /verif)
+VGOFLAGS="$GOFLAGS"; export GOFLAGS=-mod=mod
 cd "$WT" || exit 2
 git checkout -q -- . ; git clean -fdq
 place=$(head -5 "$DEMO" | grep -o 'place in: *[./a-z]*' | head -1 | sed 's/place in: *//'); place=${place:-./}
@@ -23,11 +25,12 @@ rm -f "$WT/$place/zz_demo_test.go"
 if [ "$place" = "./publish/" ] || grep -q 'publish/' "$PATCH"; then (cd publish && go test -mod=mod -vet=off -count=1 ./... >/dev/null 2>&1) || rc_suite=1; fi
 echo "suite-with-change: rc=$rc_suite"
 git checkout -q -- . ; git clean -fdq
-cd /repo && git apply "$PATCH" || { echo "patch-does-not-apply-to-repo"; exit 3; }
+export GOFLAGS="$VGOFLAGS"
+cd "$VERIF_REPO" && git apply "$PATCH" || { echo "patch-does-not-apply-to-repo"; exit 3; }
 for c in "$@"; do
   o=$(/verif/scripts/check.sh "$c" quick 2>&1); rc=$?
   key=$(echo "$o" | grep -A1 '^VIOLATION' | grep 'key=' | head -3 | tr '\n' ' ')
   echo "check $c: rc=$rc $key"
 done
-git -C /repo checkout -q -- . ; git -C /repo clean -fdq -e vsched 2>/dev/null
-git -C /repo status --short | head -3
+git -C "$VERIF_REPO" checkout -q -- . ; git -C "$VERIF_REPO" clean -fdq -e vsched 2>/dev/null
+git -C "$VERIF_REPO" status --short | head -3
